@@ -132,6 +132,22 @@ Proof.
 Qed.
 Print Assumptions c02_tie.
 
+(* 4a. ... and so are the configurations: _check_attr, the default switches, prefix and safe_attrs, the classic update *)
+Theorem c02_tie_configurations :
+  (forall s perm pne n o, Gen_attrpolicy.check_attr s perm pne n o = Attr.check_attr s perm pne n o)
+  /\ Gen_attrpolicy.default_switches = sw_default /\ Gen_protocol.exposed_prefix = pc_prefix conf_default
+  /\ forallb (fun n => smem n default_safe_attrs) Gen_protocol.safe_attrs = true
+  /\ forallb (fun n => smem n Gen_protocol.safe_attrs) default_safe_attrs = true
+  /\ sw_classic = {| allow_safe := upd "allow_safe_attrs" (allow_safe sw_default); allow_exposed := upd "allow_exposed_attrs" (allow_exposed sw_default);
+                     allow_public := upd "allow_public_attrs" (allow_public sw_default); allow_all := upd "allow_all_attrs" (allow_all sw_default);
+                     allow_getattr := upd "allow_getattr" (allow_getattr sw_default); allow_setattr := upd "allow_setattr" (allow_setattr sw_default);
+                     allow_delattr := upd "allow_delattr" (allow_delattr sw_default) |}.
+Proof.
+  destruct tie_classic_switches as [D K]. destruct tie_safe_attrs as [S1 S2]. destruct tie_default_switches as [_ P].
+  split; [exact tie_check_attr|]. repeat split; auto.
+Qed.
+Print Assumptions c02_tie_configurations.
+
 (* ---- non-vacuity ---- *)
 Definition F_pinned : facts := {| f_getattr_repeats := true; f_ctxexit_delivers := false |}.
 Definition F_repaired : facts := {| f_getattr_repeats := false; f_ctxexit_delivers := true |}.
